@@ -46,7 +46,7 @@ fn decode(fw: &FactoryWorld, chunk: &[u64]) -> CreateOp {
     let mut o = Src::new(chunk);
     let uni = fw.universe(true);
     let valid_n = fw.w.natives.len() + fw.w.tokens.len();
-    let kind = o.weighted(&[10, 2, 1, 2, 1, 2, 1]);
+    let kind = o.weighted(&[10, 2, 1, 2, 1, 2, 1, 1]);
     if kind == 6 {
         // the owner migrates a registered pair to the current pair code: the registry must not change
         let addrs: Vec<String> = fw.model.pairs.values().map(|m| m.addr.clone()).collect();
@@ -92,6 +92,13 @@ fn decode(fw: &FactoryWorld, chunk: &[u64]) -> CreateOp {
             (x.clone(), x)
         }
         3 => (uni[o.idx(uni.len())].clone(), uni[valid_n + o.idx(uni.len() - valid_n)].clone()),
+        // a live cw20 contract named by another spelling of its address (addresses are case-insensitive in
+        // their canonical form), next to itself or to another valid asset
+        7 if !fw.w.tokens.is_empty() => {
+            let t = fw.w.tokens[o.idx(fw.w.tokens.len())].addr.to_string();
+            let other = if o.bool() { AssetInfo::Token { contract_addr: t.clone() } } else { uni[o.idx(valid_n)].clone() };
+            (other, AssetInfo::Token { contract_addr: t.to_uppercase() })
+        }
         _ => (uni[o.idx(valid_n)].clone(), uni[o.idx(valid_n)].clone()),
     };
     if o.bool() {
@@ -202,6 +209,9 @@ fn play(cfg: &WorldCfg, next: &mut dyn FnMut(&FactoryWorld, usize) -> Option<Cre
             if a == b {
                 classes.push("r:identical-refused");
             }
+            if [&a, &b].iter().any(|x| matches!(x, AssetInfo::Token { contract_addr } if *contract_addr != contract_addr.to_lowercase())) {
+                classes.push("r:alternative-address-spelling-refused");
+            }
             if da.is_none() || db.is_none() {
                 classes.push("r:invalid-asset-refused");
             }
@@ -212,6 +222,25 @@ fn play(cfg: &WorldCfg, next: &mut dyn FnMut(&FactoryWorld, usize) -> Option<Cre
             continue;
         }
         classes.push("r:created");
+        // a cw20 asset named by an upper-case spelling of a live token's address: the only thing judged is
+        // that such a request never yields a pair of one contract with itself or a second pair for a
+        // registered set; whether the spelling is acceptable at all is the code's business, and a history
+        // in which it was accepted is not followed further (the model knows one spelling per asset)
+        let norm = |x: &AssetInfo| match x {
+            AssetInfo::Token { contract_addr } if fw.w.tokens.iter().any(|t| t.addr.as_str() == contract_addr.to_lowercase()) => AssetInfo::Token { contract_addr: contract_addr.to_lowercase() },
+            o => o.clone(),
+        };
+        let (na, nb) = (norm(&a), norm(&b));
+        if na != a || nb != b {
+            if na == nb {
+                verdict = Verdict::Fail(format!("op {}: CreatePair [{}, {}] succeeded although both assets are the same cw20 contract (the two spellings resolve to one address)", this, a, b));
+            } else if fw.model.pairs.contains_key(&set_key(&na, &nb)) {
+                verdict = Verdict::Fail(format!("op {}: CreatePair [{}, {}] succeeded although the set [{}, {}] it resolves to was already registered", this, a, b, na, nb));
+            } else {
+                classes.push("x:alternative-address-spelling-accepted");
+            }
+            break;
+        }
         // creation rules (only-if)
         let mut why = None;
         if registered_before {
